@@ -314,6 +314,10 @@ def exit_block_code(repo: str) -> Any:
     return compile(ast.fix_missing_locations(mod), "<main.py exit-status block>", "exec")
 
 
+class MypyCrash(Exception):
+    """mypy itself failed on a program (INTERNAL ERROR -> report_internal_error raises SystemExit(2); or any exception)."""
+
+
 def run_build(rec: Recorder, files: dict[str, str], main_text: str, flag_list: list[str], pyver: tuple[int, int] | None,
               exit_code_obj: Any) -> dict:
     """One in-process build of a test-data style program in the current (temporary) directory."""
@@ -328,7 +332,12 @@ def run_build(rec: Recorder, files: dict[str, str], main_text: str, flag_list: l
             fh.write(t)
     with open("main", "w", encoding="utf-8") as fh:
         fh.write(main_text)
-    _, options = process_options(flag_list + ["--no-site-packages"], require_targets=False)
+    try:
+        _, options = process_options(flag_list + ["--no-site-packages"], require_targets=False)
+    except BaseException as e:  # noqa: BLE001 - argparse exits on flags the in-process driver cannot take
+        if isinstance(e, KeyboardInterrupt):
+            raise
+        raise MypyCrash(f"options: {type(e).__name__}: {str(e)[:200]}") from None
     options.use_builtins_fixtures = True
     options.show_traceback = True
     options.incremental = False
@@ -346,6 +355,10 @@ def run_build(rec: Recorder, files: dict[str, str], main_text: str, flag_list: l
                           flush_errors=lambda fn, msgs, serious: messages.extend(msgs))
     except CompileError:
         blockers = True
+    except KeyboardInterrupt:
+        raise
+    except BaseException as e:  # noqa: BLE001 - SystemExit(2) from report_internal_error is not an Exception
+        raise MypyCrash(f"{type(e).__name__}: {str(e)[:200]}") from None
     errs = res.manager.errors if res is not None else rec.main_errors
     stream = [d for d in rec.stream if d["eobj"] == id(errs)]
     out: dict[str, Any] = {"messages": messages, "blockers": blockers, "stream": stream, "maps": {}, "cfg": {}, "gen": {}}
@@ -507,7 +520,8 @@ def worker_case(rec: Recorder, job: dict, exit_obj: Any, sub_map: dict[str, list
         try:
             A = build(text, [])
         except Exception as e:  # noqa: BLE001 - a crash of mypy on a corpus program is not this property's business
-            res["skipped"] = "base run raised " + type(e).__name__
+            res["skipped"] = "mypy fails on the un-annotated program (not a C13 matter)"
+            res["skip_detail"] = repr(e)[:200]
             return res
         check_exit(A, "base")
         if any(i["hidden"] or i["msg"].startswith("(Skipping most remaining errors") for v in A["maps"].values() for i in v):
@@ -522,7 +536,7 @@ def worker_case(rec: Recorder, job: dict, exit_obj: Any, sub_map: dict[str, list
             try:
                 R = build(text, extra)
             except Exception as e:  # noqa: BLE001
-                res["problems"].append({"kind": "crash", "label": label, "exc": repr(e)[:300]})
+                res["problems"].append({"kind": "crash", "label": label, "exc": repr(e)[:300], "program": text[:2500], "flags": flags + extra})
                 continue
             check_exit(R, label)
             res["kinds"][label] = res["kinds"].get(label, 0) + 1
@@ -586,7 +600,7 @@ def worker_case(rec: Recorder, job: dict, exit_obj: Any, sub_map: dict[str, list
             try:
                 B = build(textB, ["--warn-unused-ignores"])
             except Exception as e:  # noqa: BLE001
-                res["problems"].append({"kind": "crash", "label": kind, "exc": repr(e)[:300]})
+                res["problems"].append({"kind": "crash", "label": kind, "exc": repr(e)[:300], "program": textB[:2500], "flags": flags + ["--warn-unused-ignores"]})
                 continue
             check_exit(B, kind)
             cfB = cfgs_of(B)
@@ -631,7 +645,7 @@ def worker_case(rec: Recorder, job: dict, exit_obj: Any, sub_map: dict[str, list
             try:
                 B = build(text, ["--disable-error-code", x])
             except Exception as e:  # noqa: BLE001
-                res["problems"].append({"kind": "crash", "label": "disable " + x, "exc": repr(e)[:300]})
+                res["problems"].append({"kind": "crash", "label": "disable " + x, "exc": repr(e)[:300], "program": text[:2500], "flags": flags + ["--disable-error-code", x]})
                 continue
             check_exit(B, "disable " + x)
             repB, genB = actual_maps(B)
@@ -683,7 +697,7 @@ def worker_case(rec: Recorder, job: dict, exit_obj: Any, sub_map: dict[str, list
             try:
                 B = build(text, ["--enable-error-code", y])
             except Exception as e:  # noqa: BLE001
-                res["problems"].append({"kind": "crash", "label": "enable " + y, "exc": repr(e)[:300]})
+                res["problems"].append({"kind": "crash", "label": "enable " + y, "exc": repr(e)[:300], "program": text[:2500], "flags": flags + ["--enable-error-code", y]})
                 continue
             check_exit(B, "enable " + y)
             repB, genB = actual_maps(B)
@@ -776,10 +790,17 @@ def worker_main() -> None:
     exit_obj = exit_block_code(repo)
     out = []
     for job in jobs:
-        if job["type"] == "case":
-            out.append(worker_case(rec, job, exit_obj, sub_map))
-        else:
-            out.append(worker_api_run(job))
+        try:
+            if job["type"] == "case":
+                out.append(worker_case(rec, job, exit_obj, sub_map))
+            else:
+                out.append(worker_api_run(job))
+        except KeyboardInterrupt:
+            raise
+        except BaseException:  # noqa: BLE001 - reported by the parent as a broken harness step, with the job name
+            import traceback
+            out.append({"name": job["name"], "harness_error": traceback.format_exc()[-1500:], "runs": 0, "variants": [], "problems": [],
+                        "skipped": "harness error", "nontrivial": 0, "suppressed": 0, "kinds": {}})
     json.dump(out, result_out)
     result_out.flush()
 
@@ -1389,6 +1410,10 @@ def stage_S(ctx: Any, verdict: str, wverdict: str = "reentry") -> None:
                 else:
                     ctx.violation(f"exit-status:{r['name']}", f"mypy exits {r['status']} but the printed messages imply {r['expected']}", r)
             continue
+        if r.get("harness_error"):
+            ctx.broke("S", "harness", f"{r['name']}: {r['harness_error'][-600:]}")
+        if r.get("skip_detail"):
+            ctx.cov.setdefault("programs_mypy_fails_on", []).append({"program": r["name"], "error": r["skip_detail"]})
         runs += r["runs"]
         nontrivial += r["nontrivial"]
         suppressed += r["suppressed"]
@@ -1419,7 +1444,11 @@ def stage_S(ctx: Any, verdict: str, wverdict: str = "reentry") -> None:
                               "diagnostics (e.g. 'Unsupported operand types for +'): the 'not covered' note emitted inside add_error_info is "
                               "seen by the active ErrorWatcher as a new error", {"case": r["name"], **p})
             elif p["kind"] == "crash":
-                ctx.log(f"note: mypy raised on a variant of {r['name']} ({p['label']}): {p['exc'][:120]} (not this property)")
+                # the un-annotated run of the same program in the same worker succeeded: the failure is caused by the variant
+                fam = p["label"].split(" ")[0]
+                ctx.violation(f"variant-crashes-mypy:{r['name']}:{fam}",
+                              f"mypy fails ({p['exc'][:160]}) on a program that checks fine without the variant `{p['label']}` "
+                              "(ignore comment / --disable-error-code / --enable-error-code / output format)", {"case": r["name"], **p})
             else:
                 ctx.violation(f"{p['kind']}:{r['name']}:{p['label']}",
                               {"inexact-own-stream": "error_info_map differs from reported stream minus exactly the matching non-blocking infos",
